@@ -1,7 +1,7 @@
 use std::fmt;
 use std::collections::HashSet;
 
-use super::ir::{AccessType, Meta, VariableName};
+use super::ir::{AccessType, Expression, Meta, VariableName};
 
 /// A variable use (a variable, component or signal read or write).
 #[derive(Clone, Hash, PartialEq, Eq)]
@@ -18,7 +18,13 @@ impl VariableUse {
         // caching run, and so on: every re-run of `cache_variable_use` would nest
         // the previous result one level deeper.
         let meta = Meta::new(&meta.location, &meta.file_id);
-        VariableUse { meta, name: name.clone(), access: access.to_owned() }
+        // For the same reason the copies of the index expressions do not keep
+        // their cached variable uses: a use of `a[e]` holds a copy of `e`, the
+        // uses cached at `e` hold copies of the indices below `e`, and so on, so
+        // the cache would more than double with every level of index nesting.
+        let mut access = access.to_owned();
+        clear_cached_variable_use(&mut access);
+        VariableUse { meta, name: name.clone(), access }
     }
 
     pub fn meta(&self) -> &Meta {
@@ -31,6 +37,56 @@ impl VariableUse {
 
     pub fn access(&self) -> &Vec<AccessType> {
         &self.access
+    }
+}
+
+/// Drops the variable use cached at the index expressions of the access (the
+/// expressions themselves, which is all that is compared or displayed, are kept).
+fn clear_cached_variable_use(access: &mut [AccessType]) {
+    fn clear(expr: &mut Expression) {
+        use Expression::*;
+        match expr {
+            InfixOp { meta, lhe, rhe, .. } => {
+                *meta.variable_knowledge_mut() = VariableKnowledge::new();
+                clear(lhe);
+                clear(rhe);
+            }
+            PrefixOp { meta, rhe, .. } => {
+                *meta.variable_knowledge_mut() = VariableKnowledge::new();
+                clear(rhe);
+            }
+            SwitchOp { meta, cond, if_true, if_false } => {
+                *meta.variable_knowledge_mut() = VariableKnowledge::new();
+                clear(cond);
+                clear(if_true);
+                clear(if_false);
+            }
+            Call { meta, args, .. } => {
+                *meta.variable_knowledge_mut() = VariableKnowledge::new();
+                args.iter_mut().for_each(clear);
+            }
+            InlineArray { meta, values } => {
+                *meta.variable_knowledge_mut() = VariableKnowledge::new();
+                values.iter_mut().for_each(clear);
+            }
+            Access { meta, access, .. } => {
+                *meta.variable_knowledge_mut() = VariableKnowledge::new();
+                clear_cached_variable_use(access);
+            }
+            Update { meta, access, rhe, .. } => {
+                *meta.variable_knowledge_mut() = VariableKnowledge::new();
+                clear_cached_variable_use(access);
+                clear(rhe);
+            }
+            Variable { meta, .. } | Number(meta, _) | Phi { meta, .. } => {
+                *meta.variable_knowledge_mut() = VariableKnowledge::new();
+            }
+        }
+    }
+    for access in access.iter_mut() {
+        if let AccessType::ArrayAccess(index) = access {
+            clear(index);
+        }
     }
 }
 
